@@ -39,7 +39,8 @@ pub(crate) struct SyncTrackerRes {
     /// Pushed references (component and handle) that came from network and were applied in world,
     /// so that in the next detect step they will be skipped and avoid ensless loop.
     pub(crate) pushed_component_from_network: HashSet<ComponentChangeId>,
-    pub(crate) pushed_handles_from_network: HashSet<AssId>,
+    /// one pending entry per asset change applied from the network (every such change raises its own AssetEvent)
+    pub(crate) pushed_handles_from_network: HashMap<AssId, usize>,
 
     pub(crate) sync_materials: bool,
     pub(crate) sync_meshes: bool,
@@ -101,13 +102,20 @@ impl SyncTrackerRes {
         }
     }
 
+    pub(crate) fn handle_pushed_from_network(&mut self, id: AssId) {
+        *self.pushed_handles_from_network.entry(id).or_insert(0) += 1;
+    }
+
     pub(crate) fn skip_network_handle_change(&mut self, id: AssId) -> bool {
-        if self.pushed_handles_from_network.contains(&id) {
+        if let Some(pending) = self.pushed_handles_from_network.get_mut(&id) {
             debug!(
                 "Debouncing network handle change, was already pushed. {:?}",
                 id
             );
-            self.pushed_handles_from_network.remove(&id);
+            *pending -= 1;
+            if *pending == 0 {
+                self.pushed_handles_from_network.remove(&id);
+            }
             return true;
         }
         false
@@ -201,8 +209,7 @@ impl SyncTrackerRes {
         };
         world
             .resource_mut::<SyncTrackerRes>()
-            .pushed_handles_from_network
-            .insert(id);
+            .handle_pushed_from_network(id);
         let mut materials = world.resource_mut::<Assets<StandardMaterial>>();
         materials.insert(id, *mat);
     }
